@@ -71,25 +71,53 @@ def write_cases(path, qs, vals):
             f.write(json.dumps(v) + '\n')
 
 
-def tv_view(ctx, evs, name, shards=None, demo=False):
-    """Parallel TLC trace validation; returns {index(0-based): sig}, drift indices."""
-    shards = shards or min(8, max(1, len(evs) // 8000))
-    chunks = [list(range(i, len(evs), shards)) for i in range(shards)]
+def tv_files(ctx, shard_paths, name, demo=False):
+    """Parallel TLC trace validation of prepared shard files (event i of the whole run is line i // n + 1 of shard i % n).
+    Returns {global index (0-based): sig}, [drift indices]."""
+    n = len(shard_paths)
 
     def one(k):
-        idx = chunks[k]
-        p = os.path.join(ctx.build, '%s_shard%d.ndjson' % (name, k))
-        vlib.write_ndjson(p, [evs[i] for i in idx])
-        rej, drift, res = ctx.tv('TraceView', 'tv.cfg', p, name='%s_%d' % (name, k), cfg_text=TV_CFG, count=not demo,
-                                 timeout=3000 if ctx.tier == 'thorough' else 900, heap='3g')
-        return [(idx[l - 1], s) for l, s in rej], [idx[l - 1] for l in drift]
+        rej, drift, res = ctx.tv('TraceView', 'tv.cfg', shard_paths[k], name='%s_%d' % (name, k), cfg_text=TV_CFG, count=not demo,
+                                 timeout=6000 if ctx.tier == 'thorough' else 900, heap='3g' if ctx.tier == 'thorough' else '2g')
+        return [((l - 1) * n + k, s) for l, s in rej], [(l - 1) * n + k for l in drift]
     rejects, drifts = {}, []
-    with ThreadPoolExecutor(max_workers=shards) as ex:
-        for rej, dr in ex.map(one, range(shards)):
+    with ThreadPoolExecutor(max_workers=n) as ex:
+        for rej, dr in ex.map(one, range(n)):
             for i, s in rej:
                 rejects[i] = s
             drifts += dr
     return rejects, drifts
+
+
+def tv_view(ctx, evs, name, demo=False):
+    """Trace validation of a short in-memory event list (confirmation runs, binding demo)."""
+    p = os.path.join(ctx.build, '%s_shard0.ndjson' % name)
+    vlib.write_ndjson(p, evs)
+    return tv_files(ctx, [p], name, demo=demo)
+
+
+def stream(paths):
+    """(global index, raw line) over the event files in order"""
+    i = 0
+    for p in paths:
+        with open(p) as f:
+            for line in f:
+                if line.strip():
+                    yield i, line
+                    i += 1
+
+
+def fetch(paths, wanted):
+    """parse only the events with the given global indices"""
+    wanted = set(wanted)
+    out = {}
+    if wanted:
+        for i, line in stream(paths):
+            if i in wanted:
+                out[i] = json.loads(line)
+                if len(out) == len(wanted):
+                    break
+    return out
 
 
 def plain(j):
@@ -134,17 +162,17 @@ def confirm(ctx, binp, qs, e):
     write_cases(cp, collections.OrderedDict([(e['q'], e['text'])]), [e['v']])
     ctx.run([binp, 'eval', cp, ep], check=True, timeout=300)
     evs = vlib.read_ndjson(ep)
-    rej, _ = tv_view(ctx, evs, 'tv_confirm', shards=1, demo=True)
+    rej, _ = tv_view(ctx, evs, 'tv_confirm', demo=True)
     return evs[0], rej.get(0)
 
 
-def binding_demo(ctx, evs, rejects):
-    """Corrupt one logged field per aspect; TLC must reject exactly those events (and the removed output)."""
-    ok_ix = [i for i in range(len(evs)) if i not in rejects]
+def binding_demo(ctx, evs):
+    """Corrupt one logged field per aspect; TLC must reject exactly those events (and the removed output).
+    evs: accepted TLC-emitted events."""
     def find(pred):
-        for i in ok_ix:
-            if pred(evs[i]):
-                return copy.deepcopy(evs[i])
+        for e in evs:
+            if pred(e):
+                return copy.deepcopy(e)
         raise Inconclusive('no event for binding demo')
     good = find(lambda e: e['q'] == 'type')
     a = find(lambda e: e['q'] == 'length' and e['v']['t'] == 'array' and len(e['v']['kids']) == 2)       # a value changed on one side
@@ -159,7 +187,7 @@ def binding_demo(ctx, evs, rejects):
     f = find(lambda e: e['q'] == 'key_a' and e['v']['t'] == 'array')                                        # NullOnNonObject: dv must be null
     f['dv'] = dict(err=True, out=[])
     demo = [good, a, b, c, d, f]
-    rej, _ = tv_view(ctx, demo, 'view_demo', shards=1, demo=True)
+    rej, _ = tv_view(ctx, demo, 'view_demo', demo=True)
     lines = sorted(rej)
     ok = lines == [1, 2, 3, 4, 5] and rej[3].endswith('input_order.struct') and '.tovalue.' in rej[4]
     ctx.cov['binding_demo'].append(dict(spec='TraceView', corrupted_events=[1, 2, 3, 4, 5], rejected_events=lines, sigs=rej, ok=ok))
@@ -176,7 +204,7 @@ def corpus_jobs(ctx, binp):
     for f in files:
         byfam[corpusarm.family(f)].append(f)
     pick = []
-    per = 6 if th else 1
+    per = 3 if th else 1
     fams = sorted(byfam)
     if not th:
         ctx.rng.shuffle(fams)
@@ -188,7 +216,7 @@ def corpus_jobs(ctx, binp):
     jobs = []
     for f in pick:
         fmt = corpusarm.golden_formats(f, known)[0]
-        jobs.append(dict(file=f, format=fmt, picks=[ctx.rng.randrange(1 << 30) for _ in range(24 if th else 8)]))
+        jobs.append(dict(file=f, format=fmt, picks=[ctx.rng.randrange(1 << 30) for _ in range(16 if th else 8)]))
     return jobs, len(files)
 
 
@@ -215,7 +243,7 @@ def run(ctx):
     e1 = os.path.join(ctx.build, 'view_gen_events.ndjson')
     ctx.run([binp, 'eval', cpath, e1], check=True, timeout=1200)
     e2 = os.path.join(ctx.build, 'view_rand_events.ndjson')
-    r = ctx.run([binp, 'rand', str(2500 if th else 200), cpath, e2], check=True, timeout=2400)
+    r = ctx.run([binp, 'rand', str(1500 if th else 200), cpath, e2], check=True, timeout=2400)
     skipped = json.loads(r.stdout.strip().splitlines()[-1])['skipped']
     jobs, navail = corpus_jobs(ctx, binp)
     jp = os.path.join(ctx.build, 'view_corpus_jobs.ndjson')
@@ -223,74 +251,93 @@ def run(ctx):
     e3 = os.path.join(ctx.build, 'view_corpus_events.ndjson')
     r = ctx.run([binp, 'corpus', jp, cpath, e3], check=True, timeout=3000)
     cstats = json.loads(r.stdout.strip().splitlines()[-1])
-    gen_ev = vlib.read_ndjson(e1)
-    rand_ev = vlib.read_ndjson(e2)
-    corp_ev = vlib.read_ndjson(e3)
-    if len(gen_ev) != len(rel):
-        raise Inconclusive('harness returned %d events for %d pairs' % (len(gen_ev), len(rel)))
-    if cstats.get('files', 0) < len(jobs) // 2 or not corp_ev:
-        raise Inconclusive('corpus arm decoded only %s of %d files' % (cstats, len(jobs)))
-    evs = gen_ev + rand_ev + corp_ev
-    rejects, drifts = tv_view(ctx, evs, 'tv_view')
-    ctx.cov['traces_validated_against_impl'] += len(evs)
-    ctx.cov['evaluations'] += 2 * len(evs)
-    # coverage bookkeeping
-    nontrivial = set()
+    paths = [e1, e2, e3]
+    nq = len(qs)
+    # pass 1: round-robin the raw lines into shard files, gather coverage figures without keeping the events
+    nsh = 6 if th else 4
+    shard_paths = [os.path.join(ctx.build, 'tv_view_shard%d.ndjson' % k) for k in range(nsh)]
+    outs = [open(p, 'w') for p in shard_paths]
+    counts = collections.Counter()
+    differs = bytearray()
+    nontrivial, vseen = set(), set()
     kinds = collections.Counter()
-    differ = collections.Counter()
-    vseen = set()
-    for i, e in enumerate(evs):
-        v = e['v']
-        if v['t'] != 'scalar' or v['sym']['t'] != 'none' or e['dv'] != e['jv']:
-            nontrivial.add((json.dumps(v, sort_keys=True), e['q']))
-        if e['dv'] != e['jv'] and i not in rejects:
-            differ['documented'] += 1
+
     def walk(v):
         if v['t'] == 'scalar':
             kinds['%s%s' % (v['kind'], '+sym' if v['sym']['t'] != 'none' else '')] += 1
         for k in v['kids']:
             walk(k)
-    for e in evs:
-        key = (e['src'], json.dumps(e['v'], sort_keys=True))
-        if key not in vseen:
-            vseen.add(key); walk(e['v'])
+    demo_pool = []
+    for i, line in stream(paths):
+        outs[i % nsh].write(line if line.endswith('\n') else line + '\n')
+        e = json.loads(line)
+        counts[e['src'].split(' ')[0] if e['src'] in ('gen', 'rand') else 'corpus'] += 1
+        d = e['dv'] != e['jv']
+        differs.append(1 if d else 0)
+        v = e['v']
+        if e['q'] == 'identity':              # first query of every value
+            vkey = hash((e['src'], json.dumps(v, sort_keys=True)))
+            if vkey not in vseen:
+                vseen.add(vkey); walk(v)
+        if v['t'] != 'scalar' or v['sym']['t'] != 'none' or d:
+            nontrivial.add(hash((json.dumps(v, sort_keys=True), e['q'])))
+        if e['src'] == 'gen' and e['q'] in ('type', 'length', 'each', 'keys', 'identity', 'key_a') and len(demo_pool) < 4000:
+            demo_pool.append((i, e))
+    for o in outs:
+        o.close()
+    ntotal = len(differs)
+    if counts['gen'] != len(rel):
+        raise Inconclusive('harness returned %d events for %d pairs' % (counts['gen'], len(rel)))
+    if cstats.get('files', 0) < len(jobs) // 2 or not counts['corpus']:
+        raise Inconclusive('corpus arm decoded only %s of %d files' % (cstats, len(jobs)))
+    rejects, drifts = tv_files(ctx, shard_paths, 'tv_view')
+    ctx.cov['traces_validated_against_impl'] += ntotal
+    ctx.cov['evaluations'] += 2 * ntotal
     relc = collections.Counter(rel.values())
     ctx.cov['distinct_nontrivial'] += len(nontrivial)
-    ctx.cov['view'] = dict(gen_values=len(vlist), queries=len(qs), gen_pairs=len(gen_ev), gen_expected_relation=dict(relc),
-                           rand_values=len(rand_ev) // len(qs), rand_skipped=skipped, corpus_files_available=navail, corpus_files=cstats.get('files', 0),
+    ctx.cov['view'] = dict(gen_values=len(vlist), queries=nq, gen_pairs=counts['gen'], gen_expected_relation=dict(relc),
+                           rand_values=counts['rand'] // nq, rand_skipped=skipped, corpus_files_available=navail, corpus_files=cstats.get('files', 0),
                            corpus_files_failed=cstats.get('files_failed', 0), corpus_nodes=cstats.get('nodes', 0),
-                           pairs_with_documented_difference=differ['documented'], pairs_rejected=len(rejects),
-                           scalar_kinds_seen=dict(sorted(kinds.items())), distinct_values=len(vseen))
-    need = {k + s for k in ('uint', 'sint', 'big', 'flt', 'str', 'bool', 'null', 'raw') for s in ('', '+sym')} | {'any'}
+                           pairs_with_documented_difference=sum(1 for i in range(ntotal) if differs[i] and i not in rejects),
+                           pairs_rejected=len(rejects), scalar_kinds_seen=dict(sorted(kinds.items())), distinct_values=len(vseen))
+    need = {k + s_ for k in ('uint', 'sint', 'big', 'flt', 'str', 'bool', 'null', 'raw') for s_ in ('', '+sym')} | {'any'}
     if not need <= set(kinds):
         raise Inconclusive('scalar kinds not covered: %s' % sorted(need - set(kinds)))
-    if drifts:
-        ctx.drift('real result differs from the as-built method model: ' + describe(evs[drifts[0]]), len(drifts))
     # verdicts
     bysig = collections.defaultdict(list)
     for i in sorted(rejects):
         bysig[rejects[i]].append(i)
+    wanted = set(drifts[:1])
+    for sig, idx in bysig.items():
+        wanted |= set(idx[:1] if sig in ctx.known else idx[:6])
+    wanted |= {nq * 40 + 3, counts['gen'] + counts['rand'] // 2, counts['gen'] + counts['rand'] + counts['corpus'] // 3}
+    first_diff = next((i for i in range(ntotal) if differs[i] and i not in rejects), None)
+    if first_diff is not None:
+        wanted.add(first_diff)
+    ev = fetch(paths, wanted)
+    if drifts:
+        ctx.drift('real result differs from the as-built method model: ' + describe(ev[drifts[0]]), len(drifts))
     for sig in sorted(bysig):
         idx = bysig[sig]
         if sig in ctx.known:
             for i in idx:
-                ctx.finding(sig, describe(evs[i]), None)
+                ctx.finding(sig, describe(ev[idx[0]]), None)
             continue
         # G1: confirm by re-running the pair alone before reporting a violation
-        e = evs[idx[0]]
+        e = ev[idx[0]]
         e2_, sig2 = confirm(ctx, binp, qs, e)
         if sig2 is None:
             ctx.inconc('rejected pair did not reproduce when re-run alone (sig %s): %s' % (sig, describe(e)))
             continue
         for i in idx:
-            ctx.finding(sig, describe(evs[i]), dict(event=evs[i], one_line='fq -d <format> %s (and the same after | tovalue)' % json.dumps(evs[i]['text'])))
-    for e in (gen_ev[len(qs) * 40 + 3], rand_ev[len(rand_ev) // 2] if rand_ev else gen_ev[0], corp_ev[len(corp_ev) // 3]):
-        ctx.sample(dict(kind='metamorphic pair (%s)' % e['src'].split(' ')[0][:60], pair=describe(e)))
-    for e in evs:
-        if e['dv'] != e['jv']:
-            ctx.sample(dict(kind='pair with a documented difference', pair=describe(e)))
-            break
-    binding_demo(ctx, gen_ev, {i: s for i, s in rejects.items() if i < len(gen_ev)})
+            x = ev.get(i, e)
+            ctx.finding(sig, describe(x), dict(event=x, one_line='fq -d <format> %s (and the same after | tovalue)' % json.dumps(x['text'])))
+    for i in (nq * 40 + 3, counts['gen'] + counts['rand'] // 2, counts['gen'] + counts['rand'] + counts['corpus'] // 3):
+        if i in ev:
+            ctx.sample(dict(kind='metamorphic pair (%s)' % ev[i]['src'].split(' ')[0][:60], pair=describe(ev[i])))
+    if first_diff is not None:
+        ctx.sample(dict(kind='pair with a documented difference', pair=describe(ev[first_diff])))
+    binding_demo(ctx, [e for i, e in demo_pool if i not in rejects])
 
 
 def replay(ctx, path):
